@@ -181,10 +181,15 @@ class FS(Env):
         classes = self.contract[self.fmt]
         idx = self.w.choose(len(classes), f"decoder_exception({fh.path},{content[0]})")
         msg = f"bad {self.fmt} content: {content[0]}"
-        try:
-            exc = classes[idx](msg)
-        except TypeError:
-            exc = classes[idx](msg, "", 0)  # json.JSONDecodeError(msg, doc, pos)
+        exc = None
+        for args in ((msg,), (msg, "", 0), ("utf-8", b"\xc3", 0, 1, msg)):
+            try:  # json.JSONDecodeError(msg, doc, pos), UnicodeDecodeError(enc, obj, s, e, why)
+                exc = classes[idx](*args)
+                break
+            except TypeError:
+                continue
+        if exc is None:
+            exc = ValueError(msg)
         raise prog(exc)
 
     # -- crash semantics -----------------------------------------------------------------------
@@ -251,45 +256,55 @@ class FS(Env):
 
 
 def decoder_contract():
-    """Tabulate natively which exception classes the real json / pickle decoders raise on every
-    truncation and on the zero-fill of real saved files (three representative states)."""
-    import io
-    import sys
+    """Tabulate natively which exception classes a load raises on every truncation and on the
+    zero-fill of real saved files (three representative states, non-ASCII text included).  The
+    files are written by the repository's own _save_json/_save_pickle and read back by its own
+    _load_json/_load_pickle, so the writer's and reader's parameters (encoding, ensure_ascii,
+    pickle protocol) are whatever the current tree uses."""
     import os as _os
+    import shutil
+    import sys
+    import tempfile
     sys.path.insert(0, _os.environ.get("VERIF_REPO", "/repo"))
-    from mysensors.persistence import MySensorsJSONDecoder, MySensorsJSONEncoder
+    from mysensors.persistence import Persistence
     from mysensors.sensor import Sensor
     states = []
-    s0 = {}
-    states.append(s0)
+    states.append({})
     a = Sensor(1)
     a.type = 17
-    a.sketch_name = "x"
+    a.sketch_name = "Küche"
     a.add_child_sensor(0, 6, "t")
     a.children[0].values[0] = "20.5"
     states.append({1: a})
     b = Sensor(254)
     b.add_child_sensor(3, 3, "dé")
     b.children[3].values[2] = "1"
-    b.children[3].values[3] = "99"
+    b.children[3].values[3] = "99 µ"
     c = Sensor(0)
     states.append({1: a, 254: b, 0: c})
     out = {"json": set(), "pickle": set()}
     prefix_decodes = {"json": 0, "pickle": 0}
     total = 0
-    for st in states:
-        pj = json.dumps(st, cls=MySensorsJSONEncoder, indent=4).encode()
-        pp = pickle.dumps(st, pickle.HIGHEST_PROTOCOL)
-        for fmt, data in (("json", pj), ("pickle", pp)):
-            variants = [data[:n] for n in range(len(data))] + [b"\x00" * len(data)]
-            for v in variants:
-                total += 1
-                try:
-                    if fmt == "json":
-                        json.load(io.StringIO(v.decode("utf-8", "replace")), cls=MySensorsJSONDecoder)
-                    else:
-                        pickle.load(io.BytesIO(v))
-                    prefix_decodes[fmt] += 1
-                except Exception as exc:  # noqa: BLE001 - tabulating is the point
-                    out[fmt].add(type(exc))
+    tmp = tempfile.mkdtemp(prefix="verif_contract_")
+    try:
+        for st in states:
+            for fmt in ("json", "pickle"):
+                path = _os.path.join(tmp, f"s.{fmt}")
+                writer = Persistence(dict(st), lambda save: None, path)
+                getattr(writer, f"_save_{fmt}")(path)
+                with open(path, "rb") as fh:
+                    data = fh.read()
+                variants = [data[:n] for n in range(len(data))] + [b"\x00" * len(data)]
+                for v in variants:
+                    total += 1
+                    with open(path, "wb") as fh:
+                        fh.write(v)
+                    reader = Persistence({}, lambda save: None, path)
+                    try:
+                        getattr(reader, f"_load_{fmt}")(path)
+                        prefix_decodes[fmt] += 1
+                    except Exception as exc:  # noqa: BLE001 - tabulating is the point
+                        out[fmt].add(type(exc))
+    finally:
+        shutil.rmtree(tmp, ignore_errors=True)
     return ({k: sorted(v, key=lambda c: c.__name__) for k, v in out.items()}, prefix_decodes, total)
